@@ -144,3 +144,73 @@ Example path_order_laws_nonvacuous :
   sort_by (fun s => s) ["golang.org/x/b"; "fmt"; "a.b/c"; "os"] = ["fmt"; "os"; "a.b/c"; "golang.org/x/b"] /\
   sort_by (fun s => s) ["os"; "a.b/c"; "golang.org/x/b"; "fmt"] = ["fmt"; "os"; "a.b/c"; "golang.org/x/b"].
 Proof. vm_compute. split; reflexivity. Qed.
+
+(* ---- the same for lists sorted BY a key (import specs sorted by their path: the rearrangement of
+        the first import block after an addition, sort.Slice over blocks[0].Specs) ---------------- *)
+Section Keyed.
+Context {A : Type} (key : A -> string).
+Definition plk (a b : A) : Prop := path_less (key a) (key b) = true.
+
+Lemma sorted_unique_k : forall l l', StronglySorted plk l -> StronglySorted plk l' -> Permutation l l' -> l = l'.
+Proof.
+  induction l as [|x r IH]; intros l' Hs Hs' Hp.
+  - apply Permutation_nil in Hp. subst. reflexivity.
+  - destruct l' as [|y r']; [apply Permutation_sym, Permutation_nil in Hp; discriminate|].
+    inversion Hs as [|? ? Hsr Hxr]; subst. inversion Hs' as [|? ? Hsr' Hyr']; subst.
+    assert (Hin1 : In x (y :: r')) by (eapply Permutation_in; [exact Hp|left; reflexivity]).
+    assert (Hin2 : In y (x :: r)) by (eapply Permutation_in; [apply Permutation_sym; exact Hp|left; reflexivity]).
+    assert (Hxy : x = y).
+    { destruct Hin1 as [Hc|Hx]; [congruence|]. destruct Hin2 as [Hc|Hy]; [congruence|]. exfalso.
+      rewrite Forall_forall in Hxr, Hyr'. pose proof (Hxr y Hy) as H1. pose proof (Hyr' x Hx) as H2.
+      unfold plk in *. rewrite (path_less_asym _ _ H1) in H2. discriminate. }
+    subst y. f_equal. apply IH; try assumption. eapply Permutation_cons_inv; exact Hp.
+Qed.
+
+Lemma insert_sorted_forall_k (P : A -> Prop) x l : P x -> Forall P l -> Forall P (insert_sorted key x l).
+Proof.
+  intros Hx Hl. induction l as [|y r IH]; cbn [insert_sorted]; [constructor; auto|].
+  inversion Hl; subst. destruct (path_less (key x) (key y)); constructor; auto.
+Qed.
+
+Lemma insert_sorted_sorted_k x l : ~ In (key x) (map key l) -> StronglySorted plk l -> StronglySorted plk (insert_sorted key x l).
+Proof.
+  intros Hn Hs. induction l as [|y r IH]; cbn [insert_sorted]; [constructor; constructor|].
+  inversion Hs as [|? ? Hsr Hyr]; subst.
+  destruct (path_less (key x) (key y)) eqn:Hxy.
+  - constructor; [exact Hs|]. constructor; [exact Hxy|].
+    rewrite Forall_forall in *. intros z Hz. unfold plk. eapply path_less_trans; [exact Hxy|apply Hyr; exact Hz].
+  - constructor.
+    + apply IH; [intros Hc; apply Hn; right; exact Hc|exact Hsr].
+    + apply insert_sorted_forall_k; [|exact Hyr]. unfold plk.
+      destruct (path_less_total (key y) (key x)) as [H|H]; [intros Heq; apply Hn; left; exact Heq|exact H|].
+      rewrite H in Hxy. discriminate.
+Qed.
+
+Lemma insert_sorted_perm_k x l : Permutation (x :: l) (insert_sorted key x l).
+Proof.
+  induction l as [|y r IH]; cbn [insert_sorted]; [apply Permutation_refl|].
+  destruct (path_less (key x) (key y)); [apply Permutation_refl|].
+  eapply Permutation_trans; [apply perm_swap|]. apply perm_skip. exact IH.
+Qed.
+
+Lemma sort_by_perm_k l : Permutation l (sort_by key l).
+Proof.
+  unfold sort_by. induction l as [|x r IH]; cbn [fold_right]; [constructor|].
+  eapply Permutation_trans; [apply perm_skip; exact IH|apply insert_sorted_perm_k].
+Qed.
+
+Theorem sort_by_sorted_k l : NoDup (map key l) -> StronglySorted plk (sort_by key l).
+Proof.
+  unfold sort_by. induction l as [|x r IH]; intros Hnd; cbn [fold_right]; [constructor|].
+  cbn [map] in Hnd. inversion Hnd as [|? ? Hx Hr]; subst. apply insert_sorted_sorted_k; [|apply IH; assumption].
+  intros Hc. apply Hx. eapply Permutation_in; [|exact Hc].
+  apply Permutation_map, Permutation_sym, sort_by_perm_k.
+Qed.
+
+Theorem any_sort_is_the_models_k l l' :
+  NoDup (map key l) -> Permutation l l' -> StronglySorted plk l' -> l' = sort_by key l.
+Proof.
+  intros Hnd Hp Hs. apply sorted_unique_k; [exact Hs|apply sort_by_sorted_k; exact Hnd|].
+  eapply Permutation_trans; [apply Permutation_sym; exact Hp|apply sort_by_perm_k].
+Qed.
+End Keyed.
